@@ -48,11 +48,14 @@ SEPS = [" ", "\t", "  "]
 SUBJECTS = [("<http://ex.org/s>", ("iri", "http://ex.org/s")), ("_:b1", ("bnode", "_:b1")),
             ("<http://ex.org/a#b@c_d:e>", ("iri", "http://ex.org/a#b@c_d:e")),
             ("_:b12", ("bnode", "_:b12")), ("<http://ex.org/caf\u00e9/\u65e5>", ("iri", "http://ex.org/caf\u00e9/\u65e5")),
-            ("_:b1x", ("bnode", "_:b1x"))]       # labels that extend the label of another subject
+            ("_:b1x", ("bnode", "_:b1x")),       # labels that extend the label of another subject
+            ("<http://ex.org/p>", ("iri", "http://ex.org/p")),       # an IRI that is also used as a predicate (a property described in the data)
+            ("<http://ex.org/ns#p_1@x>", ("iri", "http://ex.org/ns#p_1@x"))]
 PREDS = [("<http://ex.org/p>", "http://ex.org/p"), ("<http://ex.org/ns#p_1@x>", "http://ex.org/ns#p_1@x")]
 NONLIT_OBJECTS = [("<http://ex.org/o>", ("iri", "http://ex.org/o")), ("<http://ex.org/o#x@y>", ("iri", "http://ex.org/o#x@y")),
                   ("_:o1", ("bnode", "_:o1")), ("_:o-1", ("bnode", "_:o-1")), ("_:o.1", ("bnode", "_:o.1")),
-                  ("<urn:x:y>", ("iri", "urn:x:y")), ("_:B_2", ("bnode", "_:B_2"))]
+                  ("<urn:x:y>", ("iri", "urn:x:y")), ("_:B_2", ("bnode", "_:B_2")),
+                  ("<http://ex.org/p>", ("iri", "http://ex.org/p")), ("<http://ex.org/ns#p_1@x>", ("iri", "http://ex.org/ns#p_1@x"))]
 
 
 def build_line(si, pi, otext, sep, tail):
